@@ -357,6 +357,24 @@ def d_c06_custom_escape_order():
         raise AssertionError('names that differ only in case must still be refused')
 
 
+def d_c05_c12_dir_defined_lists():
+    """A list that contains :dir() / :defined is the union of its alternatives, keeps the caller's prefix map, and its other
+    alternatives still match in XML and across iframes (C05-R1 list facts, C12-R7 rows; the four recorded findings)."""
+    import bs4
+    import soupsieve as sv
+    XH, SVG = 'http://www.w3.org/1999/xhtml', 'http://www.w3.org/2000/svg'
+    soup = bs4.BeautifulSoup('<html><body><p id="p">x</p><svg><circle id="c"/></svg><div><iframe><html><body><p id="ip">y</p></body></html></iframe></div></body></html>', 'html5lib')
+    ids = lambda s, d=soup, **kw: [e.get('id') for e in sv.select(s, d, **kw)]        # noqa: E731
+    assert ids('svg|circle, p:dir(ltr)', namespaces={'svg': SVG}) == ['p', 'c'], ids('svg|circle, p:dir(ltr)', namespaces={'svg': SVG})
+    assert ids('h|p:dir(ltr)', namespaces={'h': XH}) == ['p'], ids('h|p:dir(ltr)', namespaces={'h': XH})
+    assert ids('html|p:defined', namespaces={'h': XH}) == [], 'an unmapped prefix matches nothing'
+    xml = bs4.BeautifulSoup('<r><span id="s"/><p id="q"/></r>', 'xml')
+    assert ids('span, p:dir(ltr)', xml) == ['s'] and ids('span, p:defined', xml) == ['s']
+    assert ids('p:dir(ltr)', xml) == [] and ids(':defined', xml) == [] and ids('p:not(:defined)', xml) == ['q']
+    hp = bs4.BeautifulSoup('<html><body><div><iframe><html><body><p id="ip">y</p></body></html></iframe></div><x id="x"></x></body></html>', 'html.parser')
+    assert ids('div p, x:dir(ltr)', hp) == ids('div p', hp) + ['x'] == ['ip', 'x'], ids('div p, x:dir(ltr)', hp)
+
+
 DEMOS = {k[2:]: v for k, v in list(globals().items()) if k.startswith('d_')}
 
 if __name__ == '__main__':
